@@ -105,6 +105,12 @@ func shapes() []*shape {
 			world.Item{Kind: "permanode", Signer: 1, Data: "p2"},
 			world.Item{Kind: "file", Name: "old.txt", Date: 5},
 			world.Item{Kind: "claim", Claim: "set", PN: 4, Attr: "camliContent", ValRef: 5, Date: 30, Signer: 1}),
+		// two delete claims on one permanode, the NEWER one undone: the permanode stays deleted through the older one.
+		// Three copies with different permanodes: the order of the refs of permanode and delete claims (which decides
+		// the order of the deleted| rows a corpus load scans) differs between them.
+		mk("double-delete-a", []string{"t"}, doubleDelete("dd-a")...),
+		mk("double-delete-b", []string{"t"}, doubleDelete("dd-b")...),
+		mk("double-delete-c", []string{"t"}, doubleDelete("dd-c")...),
 		mk("delpn-attrs", []string{"a", "b"},
 			world.Item{Kind: "key", Signer: 1},
 			world.Item{Kind: "permanode", Signer: 1, Data: "p"},
@@ -112,6 +118,17 @@ func shapes() []*shape {
 			world.Item{Kind: "claim", Claim: "set", PN: 2, Attr: "title", Val: 2, Date: 12, Signer: 1},
 			world.Item{Kind: "delete", Target: 2, Date: 20, Signer: 1},
 			world.Item{Kind: "delete", Target: 5, Date: 30, Signer: 1}),
+	}
+}
+
+func doubleDelete(nonce string) []world.Item {
+	return []world.Item{
+		{Kind: "key", Signer: 1},
+		{Kind: "permanode", Signer: 1, Data: nonce},
+		{Kind: "claim", Claim: "set", PN: 2, Attr: "title", Val: 1, Date: 10, Signer: 1},
+		{Kind: "delete", Target: 2, Date: 20, Signer: 1},
+		{Kind: "delete", Target: 2, Date: 30, Signer: 1},
+		{Kind: "delete", Target: 5, Date: 40, Signer: 1},
 	}
 }
 
